@@ -377,6 +377,11 @@ impl DfaCache {
         Ok(longest_match)
     }
 
+    /// Configuration this cache was built (or deserialized) with
+    pub fn config(&self) -> &DfaCacheConfig {
+        &self.config
+    }
+
     /// Get cache statistics
     pub fn stats(&self) -> &CacheStats {
         &self.stats
